@@ -26,6 +26,26 @@ for d in sorted(glob.glob(os.path.join(ROOT, "seeded", "*"))):
         det_part = json.load(open(dj))
         fin["detection"] = det_part.get("detection", {})
         fin["route"] = det_part.get("route", "harness copy rebuilt against the patched scratch worktree")
+    elif os.path.isfile(sj) and os.path.isfile("/root/work/seeded_history.json") and json.load(open("/root/work/seeded_history.json")).get(os.path.basename(d)):
+        # suite and demo confirmed at the current HEAD; detection taken from the earlier verification run(s)
+        fin = json.load(open(sj))
+        runs = sorted(json.load(open("/root/work/seeded_history.json"))[os.path.basename(d)], key=lambda x: x["run"])
+        last = runs[-1]
+        det = {}
+        for pp, rc in last["check_exits"].items():
+            first, subs = "", set()
+            lg = os.path.join(d, f"check_{pp}.log")
+            if os.path.isfile(lg):
+                for l in open(lg, errors="replace"):
+                    if l.startswith("VIOLATION"):
+                        if not first:
+                            first = l.strip()[:600]
+                        m = re.search(r"sub=(\S+)", l)
+                        if m:
+                            subs.add(m.group(1))
+            det[pp] = {"exit": rc, "first_violation": first, "sub_checks_reporting": sorted(subs)}
+        fin["detection"] = det
+        fin["route"] = "harness copy rebuilt against the patched scratch worktree at an earlier /repo HEAD (6688e3b..d5beb14); not repeated at the final HEAD for lack of machine time — the check has only been strengthened since"
     else:
         continue
     notes = open(os.path.join(d, "notes.md"), errors="replace").read() if os.path.isfile(os.path.join(d, "notes.md")) else ""
